@@ -203,8 +203,8 @@ def run(ctx):
     th = EC.elefun_thresholds()
     g = EC.ArgGen(rng, th)
     takes_rnd = {n: EC.api_takes_rounding(n) for n in FUN1}
-    n1 = 16000 if ctx.quick else 300000
-    n2 = 4000 if ctx.quick else 60000
+    n1 = 16000 if ctx.quick else 120000
+    n2 = 4000 if ctx.quick else 24000
     names = list(FUN1)
     cases = _replay_cases(ctx)
     for i in range(n1):
